@@ -51,7 +51,7 @@ FACTORS = [
 ]
 
 
-def lattice_case(pt):
+def lattice_case(pt, canary_cond=None):
     strat, age, nr, rst, pause, unpause, valid, failed, active_present, stale = pt
     canary = None
     if strat != "none":
@@ -78,6 +78,17 @@ def lattice_case(pt):
     if rst is not None:
         base = nr if nr is not None else 300
         conds.append(K.cond("PodRestarting", "True", trans=-(base + 100), update=-(base + rst)))
+    # the replica set's own Canary condition, which the promotion rule does not look at: absent, True since long, True since a
+    # moment ago (a replica set reused by a later canary: its restart record is older than this canary phase), or False -
+    # drawn from the point itself, so that the lattice stays the same from run to run
+    import zlib
+    kind = zlib.crc32(repr(pt).encode()) % 4 if canary_cond is None else canary_cond
+    if kind == 1:
+        conds.insert(0, K.cond("Canary", "True", trans=-3000))
+    elif kind == 2:
+        conds.insert(0, K.cond("Canary", "True", trans=-1))
+    elif kind == 3:
+        conds.append(K.cond("Canary", "False", trans=-1))
     objs = [K.node("n0", labels={"role": "w"}), K.node("n1", labels={"role": "w"})]
     est = K.eds_status(active="foo-a" if active_present else "foo-gone", desired=2, current=2, ready=2, available=2, uptodate=2,
                        state="Canary" if canary else "Running",
@@ -96,6 +107,14 @@ def generate(rng, tier, stats):
     if tier == "quick":
         pts = rng.sample(pts, 400)
     out = [lattice_case(pt) for pt in pts]
+    # directed: the points where only the restart record holds the promotion back, with each shape of the replica set's own
+    # Canary condition (a reused replica set carries one that is younger than its restart record)
+    for kind in (0, 1, 2, 3):
+        for age in (0, 1):
+            for unpause in (False, True):
+                for stale in (False, True):
+                    out.append(lattice_case(("auto", age, 300, -1, "none", unpause, None, False, True, stale), canary_cond=kind))
+                    out.append(lattice_case(("auto", age, 300, 1, "none", unpause, None, False, True, stale), canary_cond=kind))
     stats["lattice_points"] = len(pts)
     stats["lattice_total"] = 23328
     nw = 100 if tier == "quick" else 1500
